@@ -1,21 +1,20 @@
 import SleapVerif.Lemmas.BottomUpMatch
-import SleapVerif.Props.C08
-import SleapVerif.Props.C17
+import SleapVerif.Lemmas.BottomUpDeps
 /-!
 # C03 composition: the grouping stage on a separated score table
 
 Puts together, for `Grouping.groupSample` (pinned matching):
-* C17/C08 — on an arborescence the connection list has tree shape (`C08.tree_conns`, which rests on
-  C17's parent-first order), hence the instance classes are the connected components of the
-  accepted connections (`C08.assign_classes_eq_components`) and the run does not raise
-  (`C08.grouping_total_partial`);
+* C17/C08 (restated from their lemma files in `Lemmas/BottomUpDeps.lean`) — on an arborescence the
+  connection list has tree shape (`tree_conns`, which rests on C17's parent-first order), hence the
+  instance classes are the connected components of the accepted connections
+  (`assign_classes_eq_components`) and the run does not raise (`grouping_total`, `…_partial`);
 * C08's solver contract `LsaOK` ⇒ `LsaStable` (`lsaStable_of_spec`);
 * H2 (`SepTable`) ⇒ accepted connections = true visible edges (`accepted_iff_true`).
 -/
 set_option linter.unusedSectionVars false
 
 namespace SleapVerif.BottomUp
-open SleapVerif.Grouping SleapVerif.Toposort
+open SleapVerif.Grouping SleapVerif.Toposort SleapVerif.BottomUp.Deps
 
 variable {K : Type} [Field K] [LinearOrder K] [IsStrictOrderedRing K]
 
@@ -61,40 +60,75 @@ theorem edge_accepted {lsa : Lsa K} {C : Mat (Option K)} {T : Nat → Nat → Pr
         refine ⟨-v, by simp, ?_⟩
         simpa [scoreOf, he] using hle
 
+theorem allValid_edgeCost {ch : List Nat} {scores : List (Mat (Option K))} {k : Nat} {e : Edge}
+    (hv : ValidIn (edgeCost ch scores k e)) : AllValid (edgeCost ch scores k e) := by
+  unfold edgeCost costMatrix at hv ⊢
+  generalize (edgeDims ch e).1 = nr at hv ⊢
+  generalize (edgeDims ch e).2 = nc at hv ⊢
+  generalize (fun i j => Option.map Neg.neg (entry (scores.getD k []) i j)) = f at hv ⊢
+  intro row hrow x hx
+  simp only [mkMat, List.mem_map, List.mem_range] at hrow
+  obtain ⟨i, hi, rfl⟩ := hrow
+  simp only [List.mem_map, List.mem_range] at hx
+  obtain ⟨j, hj, rfl⟩ := hx
+  have h0 : 0 < nr := by omega
+  have := hv i (by rw [nRows_mkMat]; exact hi) j (by rw [nCols_mkMat _ _ _ h0]; exact hj)
+  rwa [entry_mkMat _ _ _ hi hj] at this
+
+/-- with a NaN-free cost matrix both variants of the matching are the pinned one, and the solver
+sees the matrix itself -/
+theorem matchEdge_valid {fixed : Bool} {lsa : Lsa K} {C : Mat (Option K)} (hv : AllValid C)
+    (S : LsaSpecOn lsa (lsaInput fixed C)) :
+    LsaSpecOn lsa C ∧ matchEdge fixed lsa C = matchEdgeAsIs lsa C := by
+  cases fixed with
+  | false => exact ⟨by simpa [lsaInput] using S, by simp [matchEdge]⟩
+  | true =>
+    have S' : LsaSpecOn lsa C := by
+      have : lsaInput true C = C := by simp [lsaInput, fillInvalid_of_allValid hv]
+      rwa [this] at S
+    exact ⟨S', by simp only [matchEdge, if_true]; exact matches_fixed_eq_asIs_when_valid hv S'⟩
+
 /-- **The grouping stage reassembles the true groups.**  Arborescence (any listing, processed in
-C17's order), solver contract, `min_instance_peaks = 0`, H2 per edge type ⇒ the run returns; the
-accepted connections are exactly the true visible edges; exactly their endpoints are assigned; two
-peaks share an instance iff a chain of true visible edges joins them. -/
-theorem grouping_reassembly {lsa : Lsa K} {P : Grouping.Params K} {r : Nat} {ch : List Nat}
+C17's order), solver contract on the matrices of the run, `min_instance_peaks = 0`, H2 per edge type
+⇒ the run returns (both variants of the matching: `fixed`); the accepted connections are exactly
+the true visible edges; exactly their endpoints are assigned; two peaks share an instance iff a
+chain of true visible edges joins them. -/
+theorem grouping_reassembly {fixed : Bool} {lsa : Lsa K} {P : Grouping.Params K} {r : Nat} {ch : List Nat}
     {scores : List (Mat (Option K))}
     (A : Arbo P.edges r) (ho : toposort P.edges = some P.order)
-    (S : LsaOK false lsa P ch scores) (hmp : P.minPeaks = .int 0)
+    (S : LsaOK fixed lsa P ch scores) (hmp : P.minPeaks = .int 0)
     (T : Nat → Nat → Nat → Prop)
     (H2 : ∀ k e, P.edges[k]? = some e → SepTable (edgeCost ch scores k e) (T k) P.minLine) :
-    ∃ out, groupSample false lsa P ch scores = .ok out ∧
+    ∃ out, groupSample fixed lsa P ch scores = .ok out ∧
       (∀ p q, (p, q) ∈ pairs out.conns ↔
         ∃ k e i j, P.edges[k]? = some e ∧ T k i j ∧ p = (e.1, i) ∧ q = (e.2, j)) ∧
       (∀ p, (lookup out.assign p).isSome ↔ p ∈ endpoints (pairs out.conns)) ∧
       (∀ p q i j, lookup out.assign p = some i → lookup out.assign q = some j →
         (i = j ↔ Connected (pairs out.conns) p q)) := by
-  obtain ⟨out, h⟩ := C08.grouping_total_partial A ho S
-    (fun k e he => ⟨_, diag_isMatching_of_valid (H2 k e he).valid⟩)
+  have hval : ∀ k e, P.edges[k]? = some e → LsaSpecOn lsa (edgeCost ch scores k e) ∧
+      matchEdge fixed lsa (edgeCost ch scores k e) = matchEdgeAsIs lsa (edgeCost ch scores k e) :=
+    fun k e he => matchEdge_valid (allValid_edgeCost (H2 k e he).valid) (S k e he)
+  have htot : ∃ out, groupSample fixed lsa P ch scores = .ok out := by
+    cases fixed with
+    | true => exact grouping_total A ho S
+    | false =>
+      exact grouping_total_partial A ho S
+        (fun k e he => ⟨_, diag_isMatching_of_valid (H2 k e he).valid⟩)
+  obtain ⟨out, h⟩ := htot
   refine ⟨out, h, ?_, ?_⟩
   · -- accepted connections = true visible edges
     have hmts : ∀ k e, P.edges[k]? = some e →
         matchEdgeAsIs lsa (edgeCost ch scores k e) = some (out.mts.getD k []) := by
       intro k e he
-      have := matchAll_get (groupSample_ok h).1 he
-      simpa [matchEdge] using this
-    have hS : ∀ k e, P.edges[k]? = some e → LsaSpecOn lsa (edgeCost ch scores k e) := by
-      intro k e he
-      have := S k e he
-      simpa [lsaInput] using this
+      rw [← (hval k e he).2]
+      exact matchAll_get (groupSample_ok h).1 he
+    have hS : ∀ k e, P.edges[k]? = some e → LsaSpecOn lsa (edgeCost ch scores k e) :=
+      fun k e he => (hval k e he).1
     intro p q
     constructor
     · intro hpq
       obtain ⟨c, hc, hcpq⟩ := List.mem_map.mp hpq
-      obtain ⟨k, e, m, he, hm, hs, hle, h1, h2⟩ := (C08.min_score_filtered A ho S h c).mp hc
+      obtain ⟨k, e, m, he, hm, hs, hle, h1, h2⟩ := (min_score_filtered A ho S h c).mp hc
       have hT := (edge_accepted (hS k e he) (H2 k e he) (hmts k e he) m.row m.col).mp
         ⟨m, hm, rfl, rfl, c.score, hs, hle⟩
       have hp : p = c.src := (congrArg Prod.fst hcpq).symm
@@ -103,33 +137,39 @@ theorem grouping_reassembly {lsa : Lsa K} {P : Grouping.Params K} {r : Nat} {ch 
     · rintro ⟨k, e, i, j, he, hT, rfl, rfl⟩
       obtain ⟨m, hm, rfl, rfl, s, hs, hle⟩ :=
         (edge_accepted (hS k e he) (H2 k e he) (hmts k e he) i j).mpr hT
-      have := (C08.min_score_filtered A ho S h ⟨(e.1, m.row), (e.2, m.col), s⟩).mpr
+      have := (min_score_filtered A ho S h ⟨(e.1, m.row), (e.2, m.col), s⟩).mpr
         ⟨k, e, m, he, hm, hs, hle, rfl, rfl⟩
       exact List.mem_map.mpr ⟨_, this, rfl⟩
   · -- instance classes = connected components (C08, through C17's order)
     have hraw : out.assign = assignRaw (pairs out.conns) := by
-      rw [C08.assign_eq_filterSmall h, hmp]
-      simp [minPeaksThreshold, filterSmall, C08.rawAssign]
+      rw [assign_eq_filterSmall h, hmp]
+      simp [minPeaksThreshold, filterSmall, rawAssign]
     rw [hraw]
-    exact C08.assign_classes_eq_components (C08.tree_conns A ho S h).2
+    exact assign_classes_eq_components (tree_conns A ho S h).2
 
 /-- **A frame without any peak**: the grouping stage returns no connection, an empty instance map
-and no instance — for every `min_instance_peaks`, any score tables. -/
-theorem grouping_empty {lsa : Lsa K} {P : Grouping.Params K} {r : Nat} {scores : List (Mat (Option K))}
-    (A : Arbo P.edges r) (ho : toposort P.edges = some P.order) (S : LsaOK false lsa P [] scores) :
-    ∃ out, groupSample false lsa P [] scores = .ok out ∧ out.conns = [] ∧ out.assign = [] ∧
+and no instance — for every `min_instance_peaks`, any score tables, both variants of the matching. -/
+theorem grouping_empty {fixed : Bool} {lsa : Lsa K} {P : Grouping.Params K} {r : Nat}
+    {scores : List (Mat (Option K))}
+    (A : Arbo P.edges r) (ho : toposort P.edges = some P.order) (S : LsaOK fixed lsa P [] scores) :
+    ∃ out, groupSample fixed lsa P [] scores = .ok out ∧ out.conns = [] ∧ out.assign = [] ∧
       out.insts = [] := by
   have hC : ∀ k e, edgeCost ([] : List Nat) scores k e = [] := by
     intro k e
     simp [edgeCost, costMatrix, edgeDims, nodePeaks, mkMat]
-  obtain ⟨out, h⟩ := C08.grouping_total_partial A ho S (fun k e _ => ⟨[], by
-    rw [hC]
-    exact ⟨⟨by simp, by simp⟩, by simp, by simp [nRows, nCols], by simp⟩⟩)
+  have htot : ∃ out, groupSample fixed lsa P [] scores = .ok out := by
+    cases fixed with
+    | true => exact grouping_total A ho S
+    | false =>
+      exact grouping_total_partial A ho S (fun k e _ => ⟨[], by
+        rw [hC]
+        exact ⟨⟨by simp, by simp⟩, by simp, by simp [nRows, nCols], by simp⟩⟩)
+  obtain ⟨out, h⟩ := htot
   have hconns : out.conns = [] := by
     apply List.eq_nil_iff_forall_not_mem.mpr
     intro c hc
-    obtain ⟨k, e, m, he, hm, _⟩ := (C08.min_score_filtered A ho S h c).mp hc
-    have := (C08.matches_one_to_one S h he).inRange m hm
+    obtain ⟨k, e, m, he, hm, _⟩ := (min_score_filtered A ho S h c).mp hc
+    have := (matches_one_to_one S h he).inRange m hm
     rw [hC] at this
     simp [nRows] at this
   obtain ⟨_, _, ha, hi⟩ := groupSample_ok h
@@ -141,5 +181,98 @@ theorem grouping_empty {lsa : Lsa K} {P : Grouping.Params K} {r : Nat} {scores :
   rw [hconns, hassign] at hi
   simp [makeInstances, checkConns, sortedIds, nextId] at hi
   exact hi
+
+/-! ## the output rows -/
+
+theorem mem_sortedIds {a : Assign} {id : Nat} : id ∈ sortedIds a ↔ ∃ kv ∈ a, kv.2 = id := by
+  unfold sortedIds
+  rw [List.mem_filter, List.mem_range]
+  constructor
+  · rintro ⟨_, h⟩
+    obtain ⟨kv, hkv, he⟩ := List.any_eq_true.mp h
+    exact ⟨kv, hkv, by simpa using he⟩
+  · rintro ⟨kv, hkv, rfl⟩
+    exact ⟨lt_nextId hkv, List.any_eq_true.mpr ⟨kv, hkv, by simp⟩⟩
+
+theorem sortedIds_nodup (a : Assign) : (sortedIds a).Nodup :=
+  List.Nodup.filter _ List.nodup_range
+
+/-- `rowOf` holds every assigned peak of the instance, provided the instance has at most one peak
+per node type and the instance map has one entry per peak -/
+theorem rowOf_of_lookup {a : Assign} {nNodes id n k : Nat} (hn : (a.map (·.1)).Nodup)
+    (hone : ∀ k k', lookup a (n, k) = some id → lookup a (n, k') = some id → k = k')
+    (hlt : n < nNodes) (h : lookup a (n, k) = some id) :
+    (rowOf a nNodes id)[n]? = some (some k) := by
+  unfold rowOf
+  rw [List.getElem?_map, List.getElem?_range hlt]
+  simp only [Option.map_some, Option.some.injEq]
+  have hmem : ((n, k), id) ∈ a.filter (fun kv => kv.2 == id && kv.1.1 == n) :=
+    List.mem_filter.mpr ⟨lookup_some_mem h, by simp⟩
+  cases hl : (a.filter (fun kv => kv.2 == id && kv.1.1 == n)).getLast? with
+  | none =>
+    rw [List.getLast?_eq_none_iff] at hl
+    rw [hl] at hmem
+    simp at hmem
+  | some kv =>
+    have hm := List.mem_of_getLast? hl
+    obtain ⟨hma, hp⟩ := List.mem_filter.mp hm
+    simp only [Bool.and_eq_true, beq_iff_eq] at hp
+    have hkv : kv = ((n, kv.1.2), id) := by
+      rcases kv with ⟨⟨x, y⟩, z⟩
+      simp only at hp ⊢
+      rw [hp.1, hp.2]
+    have hlk : lookup a (n, kv.1.2) = some id := lookup_of_mem hn (hkv ▸ hma)
+    simp only [Option.map_some, Option.some.injEq]
+    exact (hone k kv.1.2 h hlk).symm
+
+/-- **The rows of `make_predicted_instances`**: one row per instance id in use (ascending ids), and
+the row of `id` holds at node `n` exactly the peak `(n, k)` assigned to `id`. -/
+theorem rows_of_run {fixed : Bool} {lsa : Lsa K} {P : Grouping.Params K} {r : Nat} {ch : List Nat}
+    {scores : List (Mat (Option K))} {out : Grouping.Output K}
+    (A : Arbo P.edges r) (ho : toposort P.edges = some P.order)
+    (S : LsaOK fixed lsa P ch scores) (h : groupSample fixed lsa P ch scores = .ok out)
+    (hnodes : ∀ e ∈ P.edges, e.1 < P.nNodes ∧ e.2 < P.nNodes) :
+    out.insts.map (·.row) = (sortedIds out.assign).map (rowOf out.assign P.nNodes) ∧
+    (sortedIds out.assign).Nodup ∧
+    (∀ id, id ∈ sortedIds out.assign ↔ ∃ p, lookup out.assign p = some id) ∧
+    (∀ id n k, (rowOf out.assign P.nNodes id)[n]? = some (some k) ↔ lookup out.assign (n, k) = some id) := by
+  have hn := (peaks_disjoint A ho S h).1
+  obtain ⟨_, hcs, ha, hi⟩ := groupSample_ok h
+  refine ⟨?_, sortedIds_nodup _, ?_, ?_⟩
+  · have := (instance_score_sum (tree_conns A ho S h).2 P.minPeaks P.nNodes).2
+    rw [← ha] at this
+    rw [this] at hi
+    have hi' := (Except.ok.inj hi).symm
+    rw [hi']
+    simp [List.map_map, Function.comp_def]
+  · intro id
+    rw [mem_sortedIds]
+    constructor
+    · rintro ⟨kv, hkv, rfl⟩
+      exact ⟨kv.1, lookup_of_mem hn hkv⟩
+    · rintro ⟨p, hp⟩
+      exact ⟨(p, id), lookup_some_mem hp, rfl⟩
+  · intro id n k
+    constructor
+    · exact (instance_peaks_are_inputs A ho S h).2 id n k
+    · intro hl
+      have hlt : n < P.nNodes := by
+        have I := finv_assignRaw (tree_conns A ho S h).2
+        rw [assign_eq_filterSmall h] at hl
+        have hraw := lookup_filterSmall_sub I.nodupKeys hl
+        have hend := I.keys (n, k) (by
+          show (lookup (assignRaw (pairs out.conns)) (n, k)).isSome = true
+          rw [hraw]; rfl)
+        obtain ⟨c, hc, hor⟩ := mem_endpoints.mp hend
+        obtain ⟨c', hc', rfl⟩ := List.mem_map.mp hc
+        obtain ⟨_, e, m, _, he, _, _, _, h1, h2, _, _⟩ := conn_facts S h hc'
+        have hE : e ∈ P.edges := List.mem_of_getElem? he
+        rcases hor with hh | hh
+        · have : (n, k) = (e.1, m.row) := by rw [hh]; exact h1
+          rw [(Prod.mk.inj this).1]; exact (hnodes e hE).1
+        · have : (n, k) = (e.2, m.col) := by rw [hh]; exact h2
+          rw [(Prod.mk.inj this).1]; exact (hnodes e hE).2
+      exact rowOf_of_lookup hn
+        (fun k k' h1 h2 => instance_one_peak_per_node A ho S h h1 h2) hlt hl
 
 end SleapVerif.BottomUp
